@@ -43,6 +43,19 @@ def policy_of_test(fa: FuncAnalysis, n: Node, test) -> Optional[Tuple[str, str]]
     return None
 
 
+def policy_test_norm(fa: FuncAnalysis, n: Node, test):
+    """(policy source, literal, polarity of the arm in which the policy holds) for a test written in either direction:
+    `x == P`, `not x == P`, `x != P`"""
+    pol = True
+    while isinstance(test, ast.UnaryOp) and isinstance(test.op, ast.Not):
+        test, pol = test.operand, not pol
+    if isinstance(test, ast.Compare) and len(test.ops) == 1 and isinstance(test.ops[0], ast.NotEq):
+        test = ast.Compare(left=test.left, ops=[ast.Eq()], comparators=test.comparators)
+        pol = not pol
+    p = policy_of_test(fa, n, test)
+    return (p[0], p[1], pol) if p else None
+
+
 class Site:
     def __init__(self, f, fa, h, convert_node, convert_call):
         self.f, self.fa, self.h, self.cn, self.cc = f, fa, h, convert_node, convert_call
@@ -59,7 +72,7 @@ def sites(run) -> List[Site]:
             for s, k in n.succ:
                 if k == E and s.kind == "handler" and id(s.handler) not in seen:
                     hn = handler_nodes(fa, s.handler)
-                    if any(m.kind == "test" and policy_of_test(fa, m, m.ast) for m in hn):
+                    if any(m.kind == "test" and policy_test_norm(fa, m, m.ast) for m in hn):
                         seen.add(id(s.handler))
                         out.append(Site(f, fa, s.handler, n, c))
     return out
@@ -100,11 +113,13 @@ def r11a(run):
         hn = handler_nodes(fa, h)
         hset = set(hn)
         tests = {}
+        tpol = {}       # literal -> polarity of the branch in which the policy holds (`if not (x == P): ... else:` -> False)
         for m in hn:
             if m.kind == "test":
-                p = policy_of_test(fa, m, m.ast)
+                p = policy_test_norm(fa, m, m.ast)
                 if p:
                     tests[p[1]] = (m, p[0])
+                    tpol[p[1]] = p[2]
         stores = result_stores(fa)
         is_container = any(fa.cfg.can_reach(s.cn, n) or n is s.cn for n, e in stores)
         raw_text = unparse(convert_value_arg(s.cc))
@@ -126,7 +141,7 @@ def r11a(run):
         # --- EXCLUDE
         if "EXCLUDE" in tests:
             tn, src = tests["EXCLUDE"]
-            b = branch_of(tn, True)
+            b = branch_of(tn, tpol["EXCLUDE"])
             reg = region(b)
             dom = [m for m in hn if fa.cfg.dominates(b, m)]
             warn = calls_in(dom, "collect_waring")
@@ -172,7 +187,7 @@ def r11a(run):
         # --- PRESERVE
         if "PRESERVE" in tests:
             tn, src = tests["PRESERVE"]
-            b = branch_of(tn, True)
+            b = branch_of(tn, tpol["PRESERVE"])
             reg = region(b)
             dom = [m for m in hn if fa.cfg.dominates(b, m)]
             warn = calls_in(dom, "collect_waring")
@@ -230,7 +245,7 @@ def r11a(run):
                     last = tn
         if last is not None:
             negs = [m for m in hn if all(
-                any(b.pred[0][0] is tests[l][0] and not b.polarity for b in fa.facts.branch_facts(m))
+                any(b.pred[0][0] is tests[l][0] and b.polarity != tpol[l] for b in fa.facts.branch_facts(m))
                 for l in tests)]
             he = []
             for m in negs:
@@ -248,7 +263,13 @@ def r11a(run):
                     "parse_value": {"on_error/invalid_values"}, "parse_output_value": {"on_error/invalid_values"}}
         used = {src for (tn, src) in tests.values()}
         if f.name == "_parse_map_args":
-            kind = "invalid_keys" if "key" in unparse(s.cc).split("(")[0] or "_key" in raw_text else "invalid_values"
+            # the element kind by role: the converted value is the key (first) or the value (second) element of the
+            # `.items()` loop target
+            kind = "invalid_values"
+            for b_ in fa.cfg.dominators()[s.cn]:
+                if b_.kind == "branch" and b_.is_for and b_.polarity and isinstance(b_.stmt.target, ast.Tuple) \
+                        and len(b_.stmt.target.elts) == 2 and unparse(b_.stmt.target.elts[0]) == raw_text:
+                    kind = "invalid_keys"
             exp = {kind}
         else:
             exp = expected.get(f.name)
@@ -301,10 +322,11 @@ def r11d(run):
                 if pol and pol[1] == "EXCLUDE" and p:
                     rets.append(n)
     # also: paths of the EXCLUDE branch that leave it without returning
-    tests = [m for m in fa.cfg.nodes if m.kind == "test" and policy_of_test(fa, m, m.ast) and policy_of_test(fa, m, m.ast)[1] == "EXCLUDE"]
+    tests = [m for m in fa.cfg.nodes if m.kind == "test" and policy_test_norm(fa, m, m.ast)
+             and policy_test_norm(fa, m, m.ast)[1] == "EXCLUDE"]
     run.floor("R11d", "EXCLUDE tests in parse_value", len(tests), 1)
     for t in tests:
-        tb = [s_ for s_, k in t.succ if s_.kind == "branch" and s_.polarity]
+        tb = [s_ for s_, k in t.succ if s_.kind == "branch" and s_.polarity == policy_test_norm(fa, t, t.ast)[2]]
         body = fa.cfg.reach_from_succ(tb[0], kinds=(N,)) | {tb[0]} if tb else set()
         exits = [m for m in body if m.kind == "stmt" and isinstance(m.ast, ast.Return)
                  and any(policy_of_test(fa, m, a) and policy_of_test(fa, m, a)[1] == "EXCLUDE" and p for a, p in fa.facts.atoms_at(m))]
